@@ -365,6 +365,60 @@ static void keyvalSpace(vf::Runner& R, int nkeys) {
   }, 5.0);
 }
 
+// keys and values that contain each other as text, and empty values: a substitution has to find the value behind the '=', not the first
+// occurrence of its text
+static void keyvalOverlapSpace(vf::Runner& R) {
+  const int nkeys = 4;
+  const vector<string> keys = {"a", "ab", "b", "theta1"};
+  const vector<string> vals = {"a", "b", "1", "", "ab"};
+  const vector<string> names = {"f", "g2"};
+  // entry choice per key: absent or one of the 4 values; style: 0 "k=v,k=v" ascending, 1 descending, 2 ", " separated with blanks around '='?? (only blanks after the comma)
+  uint64_t M = 1; for (int i = 0; i < nkeys; ++i) M *= 6;
+  const int NSTYLE = 4, NCH = 8;   // rendering styles (3: blanks after the comma and around '='); change sets
+  R.space("keyval:overlapping-keys4:values=5(one empty):names=2:styles=4:changes=8", M * 2 * NSTYLE * NCH, [=](uint64_t idx, vf::Case& c) {
+    vector<int> dd = vf::digits(idx, {NCH, NSTYLE, 2, (int)M});
+    int ch = dd[0], style = dd[1]; const string& name = names[(size_t)dd[2]]; uint64_t m = (uint64_t)dd[3];
+    map<string, string> args; vector<string> order;
+    for (int i = 0; i < nkeys; ++i) { int v = (int)(m % 6); m /= 6; if (v) { args[keys[(size_t)i]] = vals[(size_t)(v - 1)]; order.push_back(keys[(size_t)i]); } }
+    if (style == 1) std::reverse(order.begin(), order.end());
+    string body; for (size_t i = 0; i < order.size(); ++i) { if (i) body += (style >= 2 ? ", " : ","); body += order[i] + (style == 3 ? " = " : "=") + args[order[i]]; }
+    string desc = name + "(" + body + ")";
+    if (style == 2 && args.empty()) desc = name;   // a procedure without arguments may be written without brackets
+    if (!args.empty()) c.nontrivial();
+    c.tag("keyval-overlap: " + vf::str(args.size()) + " argument(s)");
+    // parse back
+    c.site("KeyvalTools::parseProcedure");
+    string gname; map<string, string> gargs; bool raised = false; string what;
+    try { KeyvalTools::parseProcedure(desc, gname, gargs); } catch (bpp::Exception& e) { raised = true; what = e.what(); }
+    if (raised) { c.fail("keyval|parseProcedure|raised-on-rendered-procedure", "parseProcedure(" + show(desc) + ") raised: " + what.substr(0, 100)); return; }
+    if (gname != name) c.fail("keyval|parseProcedure|name", "parseProcedure(" + show(desc) + ") name " + show(gname));
+    if (gargs != args) { string g; for (auto& kv : gargs) g += kv.first + "->" + kv.second + ";"; c.fail("keyval|parseProcedure|arguments", "parseProcedure(" + show(desc) + ") gave {" + g + "}"); }
+    // substitution: new values for a chosen set of keys (one of them never present)
+    map<string, string> nk;
+    nk[keys[(size_t)(ch / 2)]] = (ch % 2) ? "a" : "Z9";
+    c.site("KeyvalTools::changeKeyvals");
+    string nd; raised = false;
+    try { nd = KeyvalTools::changeKeyvals(desc, nk); } catch (bpp::Exception& e) { raised = true; what = e.what(); }
+    if (raised) { c.fail("keyval|changeKeyvals|raised-on-rendered-procedure", "changeKeyvals(" + show(desc) + ") raised: " + what.substr(0, 100)); return; }
+    map<string, string> want = args; for (auto& kv : nk) if (want.count(kv.first)) want[kv.first] = kv.second;
+    c.site("KeyvalTools::parseProcedure");
+    string n2; map<string, string> a2; raised = false;
+    try { KeyvalTools::parseProcedure(nd, n2, a2); } catch (bpp::Exception& e) { raised = true; what = e.what(); }
+    if (raised) c.fail("keyval|changeKeyvals|result-does-not-parse", "changeKeyvals(" + show(desc) + ") = " + show(nd) + " raised: " + what.substr(0, 100));
+    else {
+      if (n2 != name) c.fail("keyval|changeKeyvals|name", "changeKeyvals(" + show(desc) + ") = " + show(nd));
+      if (a2 != want) { string g; for (auto& kv : a2) g += kv.first + "->" + kv.second + ";"; c.fail("keyval|changeKeyvals|changes-not-exactly-the-named-keys", "changeKeyvals(" + show(desc) + ", {" + [&] { string t; for (auto& kv : nk) t += kv.first + "->" + kv.second + ";"; return t; } () + "}) = " + show(nd) + " parses to {" + g + "}"); }
+    }
+    // the argument list on its own
+    c.site("KeyvalTools::multipleKeyvals");
+    map<string, string> a3; raised = false;
+    try { KeyvalTools::multipleKeyvals(body, a3); } catch (bpp::Exception& e) { raised = true; what = e.what(); }
+    if (raised) c.fail("keyval|multipleKeyvals|raised-on-rendered-arguments", "multipleKeyvals(" + show(body) + ") raised: " + what.substr(0, 100));
+    else if (a3 != args) c.fail("keyval|multipleKeyvals|arguments", "multipleKeyvals(" + show(body) + ")");
+    if (idx % 9001 == 7) c.sample(desc + " -> name " + gname + ", " + vf::str(gargs.size()) + " args; changed: " + nd);
+  }, 5.0);
+}
+
 // =====================================================================================================================
 // wildcards
 // =====================================================================================================================
@@ -615,6 +669,7 @@ int main(int argc, char** argv) {
   tokenizerSpace(R, th ? 7 : 5);
   nestedSpace(R, th ? 8 : 6);
   nestedSolidSpace(R, th ? 9 : 7);
+  keyvalOverlapSpace(R);
   keyvalSpace(R, th ? 6 : 4);
   wildcardSpace(R, th ? 8 : 6);
   variableSpace(R, th);
